@@ -10,6 +10,7 @@ import Bourse.Lemmas.ViewsCorrect
 import Bourse.Lemmas.Grid
 import Bourse.Spec.Audit
 import Bourse.Lemmas.Uncrossed
+import Bourse.Lemmas.NoOverflow
 
 namespace Bourse.Props.C02
 open Bourse
@@ -204,5 +205,24 @@ example :
   refine ⟨?_, by decide, by decide, by decide⟩
   simp only [NoFault, and_true]
   decide
+
+/-! ### For valid histories as the property states them (`NoFault` discharged by `ValidHistory`) -/
+
+theorem published_data_equals_resting_orders_valid (t0 tick : Nat) (trading : Bool) (ops : List Op)
+    (h : ValidHistory t0 tick trading ops) (n : Nat) (hn : ∀ i, i < n → i * tick < P32) :
+    let b := (Book.new t0 tick trading).run ops
+    let os := b.orders.map (·.order)
+    b.bidAsk = (Views.bestBid os, Views.bestAsk os) ∧
+    b.bidVol = Views.sideVol os .bid ∧ b.askVol = Views.sideVol os .ask ∧
+    b.bidBestVolAndOrders = Views.touch os .bid ∧ b.askBestVolAndOrders = Views.touch os .ask ∧
+    b.bidLevels n = Views.levels os tick .bid n ∧ b.askLevels n = Views.levels os tick .ask n ∧
+    b.level1 = Views.level1 os ∧ b.level2 n = Views.level2 os tick n ∧ b.mid2 = Views.mid2 os :=
+  published_data_equals_resting_orders t0 tick trading h.tick_pos ops h.ops_valid h.noFault n hn
+
+theorem never_crossed_valid (t0 tick : Nat) (ops : List Op) (h : ValidHistory t0 tick true ops)
+    (hno : ∀ op ∈ ops, op ≠ .trading false) :
+    let b := (Book.new t0 tick true).run ops
+    b.bid.orders ≠ [] → b.ask.orders ≠ [] → b.bidAsk.1 < b.bidAsk.2 :=
+  never_crossed t0 tick h.tick_pos ops h.ops_valid hno h.noFault
 
 end Bourse.Props.C02
